@@ -111,9 +111,44 @@ impl Write for Discard {
     fn flush(&mut self) -> std::io::Result<()> { Ok(()) }
 }
 
+/// supervisor: an allocation request that cannot be met aborts the process; the worker journals the unit it is working on,
+/// the supervisor turns the abort into a record and restarts behind that unit
 pub fn run(cases_path: &str, out_path: &str, tier: &str, seed: u64) {
+    let exe = std::env::current_exe().expect("exe");
+    let _ = std::fs::remove_file(out_path);
+    let progress = format!("{out_path}.progress");
+    let mut start = 0u64;
+    let (mut evals, mut failed, mut nontrivial) = (0u64, 0u64, 0u64);
+    for _ in 0..50 {
+        let _ = std::fs::remove_file(&progress);
+        let st = std::process::Command::new(&exe).args(["c19w", "--cases", cases_path, "--out", out_path, "--tier", tier, "--seed", &seed.to_string(), "--start", &start.to_string()]).status().expect("spawn");
+        // fold the worker's own summary (if it got that far) into ours
+        let text = std::fs::read_to_string(out_path).unwrap_or_default();
+        let mut kept = Vec::new();
+        for l in text.lines() {
+            match serde_json::from_str::<Value>(l) { Ok(v) if v["summary"] == true => { evals += v["evaluations"].as_u64().unwrap_or(0); nontrivial += v["extra"]["nontrivial"].as_u64().unwrap_or(0); } Ok(_) => kept.push(l.to_string()), Err(_) => {} /* a line cut off by the abort */ }
+        }
+        if st.success() { std::fs::write(out_path, kept.join("\n") + "\n").expect("write"); break; }
+        let p: Value = std::fs::read_to_string(&progress).ok().and_then(|s| serde_json::from_str(&s).ok()).unwrap_or(json!({"unit": start, "case": "unknown"}));
+        kept.push(rec("c19.abort", p["case"].clone(), false, "declared_length", json!({"outcome": "abort", "detail": format!("the process died ({st}) in this call: an allocation request out of all proportion to the input, or a stack overflow")})).to_string());
+        std::fs::write(out_path, kept.join("\n") + "\n").expect("write");
+        start = p["unit"].as_u64().unwrap_or(start) + 1;
+        evals += 1;
+    }
+    let text = std::fs::read_to_string(out_path).unwrap_or_default();
+    failed += text.lines().filter(|l| l.contains("\"ok\":false")).count() as u64;
+    let mut f = std::fs::OpenOptions::new().append(true).open(out_path).expect("out");
+    let _ = writeln!(f, "{}", json!({"summary": true, "evaluations": evals, "failed": failed, "extra": {"cases": read_cases(cases_path).len(), "nontrivial": nontrivial.max(evals)}}));
+    let _ = std::fs::remove_file(&progress);
+}
+
+pub fn worker(cases_path: &str, out_path: &str, tier: &str, seed: u64, start: u64) {
     let cases = read_cases(cases_path);
-    let sink = Sink::new(out_path);
+    let sink = Sink::append(out_path);
+    let progress = format!("{out_path}.progress");
+    let mut unit = 0u64;
+    // returns true when the unit is to be run
+    let mut begin = |case: &Value| -> bool { let u = unit; unit += 1; if u < start { return false; } let _ = std::fs::write(&progress, json!({"unit": u, "case": case}).to_string()); true };
     let thorough = tier == "thorough";
     let mut nontrivial = 0u64;
     let signer4 = gen_key(seed ^ 0x1901, false, &Alg::Ed25519Legacy, Some(&EncAlg::EcdhCv25519), "c19 v4").expect("keygen");
@@ -128,6 +163,7 @@ pub fn run(cases_path: &str, out_path: &str, tier: &str, seed: u64) {
                 let arts = declared_artifacts(field, &signer4, &signer6, seed);
                 if arts.is_empty() { sink.put(rec("c19.declared", json!({"field": field}), false, "harness", json!({"outcome": "err", "detail": "no artefact built for this field"}))); }
                 for (label, bytes) in arts {
+                    if !begin(&json!({"field": field, "artefact": label, "input_octets": bytes.len(), "hex": hex::encode(&bytes[..bytes.len().min(80)])})) { continue; }
                     nontrivial += 1;
                     let r = guard(|| -> Result<String, String> {
                         let u = parse_everything(&bytes);
@@ -144,6 +180,7 @@ pub fn run(cases_path: &str, out_path: &str, tier: &str, seed: u64) {
             Some("repeat") => {
                 let what = c["what"].as_str().unwrap();
                 let n = if thorough { 100_000 } else { 20_000 };
+                if !begin(&json!({"repeat": what})) { continue; }
                 let build = |n: usize| -> (Vec<u8>, &'static str) {
                     let lit = pkt(11, &literal_body(b"", b"payload"));
                     match what {
@@ -199,6 +236,7 @@ pub fn run(cases_path: &str, out_path: &str, tier: &str, seed: u64) {
             Some("stream") => {
                 let what = c["what"].as_str().unwrap();
                 let (s1, s2) = if thorough { (8 * MIB, 256 * MIB) } else { (2 * MIB, 24 * MIB) };
+                if !begin(&json!({"stream": what})) { continue; }
                 nontrivial += 1;
                 let key: Vec<u8> = (0u8..16).collect();
                 let r = guard(|| -> Result<String, String> {
@@ -277,6 +315,7 @@ pub fn run(cases_path: &str, out_path: &str, tier: &str, seed: u64) {
             // ---- the KDF cost ceiling
             Some("kdf_ceiling") => {
                 let (tm, pm) = (c["t_max"].as_u64().unwrap() as u16, c["p_max"].as_u64().unwrap() as u16);
+                if !begin(&json!({"kdf_ceiling": true})) { continue; }
                 let mut bad: Vec<String> = Vec::new();
                 let mut n = 0u64;
                 for t in 0..=255u16 { for p in 0..=255u16 {
@@ -302,6 +341,7 @@ pub fn run(cases_path: &str, out_path: &str, tier: &str, seed: u64) {
     // ---- the dearmor limit holds whatever the order in which options are set, and bounds memory on endless garbage
     for (name, opts) in [("limit then crc", DearmorOptions::new().set_limit(64 * KIB).enable_crc24_check()), ("crc then limit", DearmorOptions::new().enable_crc24_check().set_limit(64 * KIB)), ("limit only", DearmorOptions::new().set_limit(64 * KIB))] {
         for (gname, garbage) in [("no newline", vec![b'x'; 8 * MIB]), ("short lines", b"garbage line\n".repeat(8 * MIB / 13)), ("header lines after BEGIN", { let mut v = b"-----BEGIN PGP MESSAGE-----\n".to_vec(); v.extend(b"Comment: x\n".repeat(8 * MIB / 11)); v })] {
+            if !begin(&json!({"dearmor_limit": name, "input": gname})) { continue; }
             nontrivial += 1;
             let r = guard(|| -> Result<String, String> {
                 let (res, u) = measure(|| { let mut d = Dearmor::with_options(SchedBufReader::new(SchedReader::new(garbage.clone(), vec![4096])), opts); drain(&mut d) });
